@@ -19,6 +19,7 @@ def Stmt.beq : Stmt → Stmt → Bool
   | .useEntry, .useEntry => true
   | .callNext a b, .callNext c d => a == c && b == d
   | .unknown, .unknown => true
+  | .badGuard, .badGuard => true
   | _, _ => false
 def beqList : List Stmt → List Stmt → Bool
   | [], [] => true
@@ -50,7 +51,8 @@ def known_micro_call_outlier : Prog := ⟨"micro/client.go:clientWrapper.Call:E"
 /-- micro client `Stream`, outlier arm -/
 def known_micro_stream_outlier : Prog := ⟨"micro/client.go:clientWrapper.Stream:E", "micro", ["embedded"],
   [.entry, .deferExit, .callNext true false, .ret]⟩
-/-- micro `NewStreamWrapper`: exits at once, the stream is used afterwards -/
+/-- micro `NewStreamWrapper` (with the option guards as repaired by d41329a): exits at once, the stream is used
+afterwards.  Only this body is recorded: the same function with mis-guarded options is judged afresh. -/
 def known_micro_stream_wrapper : Prog := ⟨"micro/server.go:NewStreamWrapper.func1", "micro", [],
   [.entry, .ifBlocked [.reject [["option"], ["Send"]], .ret], .exitNow, .ret]⟩
 
